@@ -14,8 +14,8 @@ Three parts:
     against independent definitions of the named property;
   * fault-free histories (strict oracle);
   * the same histories with injected faults: for short histories *every*
-    single-fault placement (each I/O call x each applicable fault kind x three
-    byte offsets), for longer ones seeded placements of up to 3 faults, plus
+    single-fault placement (each I/O call x each applicable fault kind x six
+    write offsets), for longer ones seeded placements of up to 3 faults, plus
     power-loss restarts; relaxed oracle "old, new or reported invalid, never
     other data".
 """
@@ -44,7 +44,7 @@ RULE = (
     "(write / rewrite of BiSC data names, reads incl. never-written names, store / load / union-from-db / "
     "create-db of automata, restart, power loss, chdir) run fault-free on simfs (strict oracle), for a sample "
     "also on a real temporary directory, and then under faults: histories of <= 6 ops get every single-fault "
-    "placement (I/O call index x applicable kinds x three offsets), longer ones seeded placements of 1-3 "
+    "placement (I/O call index x applicable kinds x write offsets: 0, half, all-but-one, and 2 / 3 / 4 characters), longer ones seeded placements of 1-3 "
     "faults; non-trivial = a fault fired inside an I/O call, or a name was written twice, or a power loss "
     "hit an unsynced file; distinct = distinct event-log digest (ops, observations, faults fired)"
 )
@@ -77,6 +77,19 @@ PREDS = {
     "all": lambda p: True,
     "none": lambda p: False,
 }
+
+
+# Histories that once exposed a defect (fixed since); executed in every batch.
+REGRESSION_CASES = [
+    # D9: a database file cut down to its first three characters ("DFA") made the loader
+    # return the DFA class instead of reporting the file as malformed
+    {"kind": "history", "fs": "sim", "faults": [],
+     "ops": [{"op": "from_db", "basis": [[], [], [0]], "cont": "list"},
+             {"op": "powerloss", "choices": [["truncated", 0.02], ["kept", 0.74], ["kept", 0.67], ["old", 0.97]]},
+             {"op": "load", "perm": []}]},
+    {"kind": "history", "fs": "sim", "faults": [{"io": 4, "kind": "crash", "arg": 3}],
+     "ops": [{"op": "store", "perm": [0, 1], "with_dfa": False}, {"op": "load", "perm": [0, 1]}]},
+]
 
 
 def plan(tier):
@@ -228,6 +241,11 @@ def preflight(tier, batch_seed, workers):  # pylint: disable=unused-argument
             case = {"kind": "shipped", "file": arg[0], "family": arg[1], "which": arg[2], "maxlen": arg[3], "n": n, "first": arg[5]}
             agg["violations"].append([-1, 0, case, core.Violation(*bad).to_json(), -1])
     agg["evaluations"] = len(tasks)
+    for case in REGRESSION_CASES:
+        out = execute(copy.deepcopy(case))
+        agg["evaluations"] += 1
+        if out.violation is not None:
+            agg["violations"].append([-1, 0, case, out.violation.to_json(), -1])
     # disjointness of good and bad at every level follows from each being exactly
     # the permutations that do / do not satisfy the property
     return {"agg": agg, "coverage": {"shipped_data": {
@@ -268,7 +286,8 @@ def gen_ops(rng, tier):
             ops.append({"op": "load", "perm": rng.choice(perms)})
         elif r < 0.84:
             k = rng.choice([1, 2, 2, 3])
-            ops.append({"op": "from_db", "basis": [rng.choice(perms) for _ in range(k)]})
+            ops.append({"op": "from_db", "basis": [rng.choice(perms) for _ in range(k)],
+                        "cont": rng.choice(["list", "list", "tuple", "set", "gen", "iter", "map"])})
         elif r < 0.87:
             ops.append({"op": "create_db", "n": rng.choice([0, 1, 2, 2, 3][: 2 + maxdfa])})
         elif r < 0.93:
@@ -323,6 +342,10 @@ def _placements(trace, rng, exhaustive, cap):
             for frac in (0.0, 0.5, 0.999):
                 res.append([{"io": idx, "kind": "error", "errno": "ENOSPC", "frac": frac}])
                 res.append([{"io": idx, "kind": "crash", "frac": frac}])
+            # a few characters only: the shortest prefixes are the ones most likely to be
+            # well-formed on their own ("DFA", "{}")
+            for arg in (2, 3, 4):
+                res.append([{"io": idx, "kind": "crash", "arg": arg}])
         elif kind == "close":
             res.append([{"io": idx, "kind": "crash"}])
         elif kind == "read":
@@ -411,6 +434,20 @@ class _RealFS:
     def close(self):
         os.chdir(self.old_cwd)
         shutil.rmtree(self.root, ignore_errors=True)
+
+
+def _basis_arg(perms, cont):
+    if cont == "tuple":
+        return tuple(perms)
+    if cont == "set":
+        return set(perms)
+    if cont == "gen":
+        return (p for p in perms)
+    if cont == "iter":
+        return iter(perms)
+    if cont == "map":
+        return map(lambda p: p, perms)
+    return list(perms)
 
 
 def _plain_dataset(d):
@@ -521,7 +558,7 @@ def _execute_history(case):
                 with contextlib.redirect_stdout(buf):
                     if kind == "write":
                         pred = PREDS[op["pred"]]
-                        result = mb.write_bisc_files(op["n"], lambda perm, f=pred: f(tuple(perm)), op["name"])
+                        result = mb.write_bisc_files(op["n"], prop_func(op["pred"]), op["name"])
                     elif kind == "read":
                         result = ["v", mb.read_bisc_file(f"{op['name']}_{op['which']}_len{op['n']}")]
                     elif kind == "store":
@@ -534,7 +571,7 @@ def _execute_history(case):
                     elif kind == "load":
                         result = ["v", pin.load_dfa_for_perm(pm.Perm(op["perm"]))]
                     elif kind == "from_db":
-                        result = ["v", pin.make_dfa_for_basis_from_db([pm.Perm(p) for p in op["basis"]])]
+                        result = ["v", pin.make_dfa_for_basis_from_db(_basis_arg([pm.Perm(p) for p in op["basis"]], op.get("cont", "list")))]
                     elif kind == "create_db":
                         pin.create_dfa_db_for_length(op["n"])
                         result = ["v", None]
@@ -735,6 +772,21 @@ def _execute_history(case):
 
 
 _MISSING = object()
+_PROP_FUNCS = {}
+
+
+def prop_func(name):
+    """One function object per named property for the whole process, as a user
+    who passes the same function to several write_bisc_files calls."""
+    if name not in _PROP_FUNCS:
+        pred = PREDS[name]
+
+        def prop(perm, _f=pred):
+            return _f(tuple(perm))
+
+        prop.__name__ = name
+        _PROP_FUNCS[name] = prop
+    return _PROP_FUNCS[name]
 
 
 def _execute_concurrent(case):
@@ -826,7 +878,7 @@ def _execute_concurrent(case):
                         for w in ("good", "bad"):
                             ds = {n: [p for p in permutations(range(n)) if pred(p) == (w == "good")] for n in range(op["n"] + 1)}
                             written.setdefault(fs.abspath(f"{op['name']}_{w}_len{op['n']}.json"), []).append(ds)
-                        mb.write_bisc_files(op["n"], lambda perm, f=pred: f(tuple(perm)), op["name"])
+                        mb.write_bisc_files(op["n"], prop_func(op["pred"]), op["name"])
                         r = ["v", None]
                     else:
                         r = ["v", mb.read_bisc_file(f"{op['name']}_{op['which']}_len{op['n']}")]
